@@ -179,3 +179,77 @@ def ref_swtpm_read(text):
 
 def ref_swtpm_pair_ends(text):
     return ref_swtpm_read(text)[1]
+
+
+# ---- pcapng writer ------------------------------------------------------------------------------
+def _pad4(b):
+    return b + b"\x00" * (-len(b) % 4)
+
+
+def _block(btype, body):
+    total = 12 + len(_pad4(body))
+    return struct.pack("<II", btype, total) + _pad4(body) + struct.pack("<I", total)
+
+
+def _opt(code, value):
+    return struct.pack("<HH", code, len(value)) + _pad4(value)
+
+
+def _ip_tcp(payload, rng, sport, dport, seq):
+    tcp = struct.pack(">HHIIBBHHH", sport, dport, seq & 0xFFFFFFFF, 0, 5 << 4, 0x18, 65535, 0, 0)
+    total = 20 + len(tcp) + len(payload)
+    ip = struct.pack(">BBHHHBBH4s4s", 0x45, 0, total, rng.randrange(65536), 0x4000, 64, 6, 0,
+                     bytes((127, 0, 0, 1)), bytes((127, 0, 0, 1)))
+    return ip + tcp + payload
+
+
+def write_pcapng(messages, rng, noise=True):
+    """pcapng capture of TPM traffic: one TCP packet per message, raw-IP or Ethernet (loopback MACs)
+    framing, runt packets (< 10 payload bytes, e.g. mssim platform commands) interleaved, optional
+    4-byte mssim trailer after responses, option blocks."""
+    ether = noise and rng.random() < 0.5
+    trailer = noise and rng.random() < 0.4
+    opts = b""
+    if noise and rng.random() < 0.5:
+        opts = _opt(3, b"Linux") + _opt(4, b"tpmstream-verif") + _opt(0, b"")
+    out = _block(0x0A0D0D0A, struct.pack("<IHHq", 0x1A2B3C4D, 1, 0, -1) + opts)
+    idb_opts = (_opt(2, b"lo") + _opt(0, b"")) if (noise and rng.random() < 0.5) else b""
+    out += _block(1, struct.pack("<HHI", 1 if ether else 101, 0, 262144) + idb_opts)
+    carried = []
+    seq = rng.randrange(1 << 32)
+    ts = rng.randrange(1 << 40)
+    runts = 0
+
+    def packet(payload):
+        nonlocal out, seq, ts
+        pkt = _ip_tcp(payload, rng, 40000, 2321, seq)
+        seq += len(payload)
+        if ether:
+            pkt = b"\x00" * 12 + b"\x08\x00" + pkt
+        ts += rng.randrange(1, 5000)
+        out += _block(6, struct.pack("<IIIII", 0, ts >> 32, ts & 0xFFFFFFFF, len(pkt), len(pkt)) + pkt)
+
+    for j, m in enumerate(messages):
+        if noise and rng.random() < 0.3:
+            packet(bytes(rng.randrange(256) for _ in range(rng.choice((0, 1, 4, 4, 8, 9)))))
+            runts += 1
+        p = bytes(m)
+        if trailer and j % 2 == 1:
+            p += b"\x00\x00\x00\x00"
+        packet(p)
+        carried.append(bytes(m))
+    if noise and rng.random() < 0.2:
+        packet(bytes(rng.randrange(256) for _ in range(rng.choice((0, 4)))))
+        runts += 1
+    return out, dict(ether=ether, trailer=trailer, runts=runts, options=bool(opts))
+
+
+def ref_pcapng_carried(blob):
+    """what the pcapng front-end is specified to deliver: payloads of >= 10 bytes, trimmed to their size field"""
+    out = b""
+    for p in ref_pcapng_payloads(blob):
+        if len(p) < 10:
+            continue
+        size = int.from_bytes(p[2:6], "big")
+        out += p[:size] if size != len(p) else p
+    return out
